@@ -18,7 +18,7 @@ from ..common import ToolError
 
 NEEDS = ["driver", "cli"]
 
-TYPE_TEXT = {"u64": "u64", "i64": "i64", "usize": "usize", "isize": "isize", "tuple2": "(u32, String)", "tuple3_nested": "Vec<(u32, (u8, u8), String)>"}
+TYPE_TEXT = {"u64": "u64", "i64": "i64", "usize": "usize", "isize": "isize", "tuple2": "(u32, String)", "tuple1": "(String,)", "tuple3_nested": "Vec<(u32, (u8, u8), String)>"}
 LANG_ARGS = {"typescript": [], "kotlin": ["--java-package", "com.x"], "swift": [], "scala": ["--scala-package", "com.x"],
              "go": ["--go-package", "p"], "python": []}
 
@@ -64,6 +64,10 @@ def source(c):
         "multi_tuple_variant": f'#[typeshare]\n#[serde(tag = "t", content = "c")]\npub enum Host {{\n    Keep(u32),\n    {sk}\n    Bad(u32, String),\n}}\n',
         "flatten_field": f"#[typeshare]\npub struct Host {{\n    pub keep: u32,\n    {sk}\n    #[serde(flatten)]\n    pub bad: Fine,\n}}\n",
         "flatten_vfield": f'#[typeshare]\n#[serde(tag = "t", content = "c")]\npub enum Host {{\n    Keep(u32),\n    Sv {{\n        keep: u32,\n        {sk}\n        #[serde(flatten)]\n        bad: Fine,\n    }},\n}}\n',
+        "flatten_field_sas": f'#[typeshare]\npub struct Host {{\n    pub keep: u32,\n    {sk}\n    #[serde(flatten)]\n    #[typeshare(serialized_as = "HashMap<String, String>")]\n    pub bad: Opaque,\n}}\n',
+        "flatten_vfield_sas": f'#[typeshare]\n#[serde(tag = "t", content = "c")]\npub enum Host {{\n    Keep(u32),\n    Sv {{\n        keep: u32,\n        {sk}\n        #[typeshare(serialized_as = "String")]\n        #[serde(flatten)]\n        bad: Opaque,\n    }},\n}}\n',
+        "flatten_field_merged": f'#[typeshare]\npub struct Host {{\n    pub keep: u32,\n    {sk}\n    #[serde(rename = "other", flatten)]\n    pub bad: Fine,\n}}\n',
+        "flatten_field_second": f'#[typeshare]\npub struct Host {{\n    pub keep: u32,\n    {sk}\n    #[serde(default)]\n    /// doc\n    #[serde(flatten)]\n    pub bad: Fine,\n}}\n',
         "untagged_data_enum": "#[typeshare]\npub enum Host { A(u32), B }\n",
         "tag_without_content": '#[typeshare]\n#[serde(tag = "t")]\npub enum Host { A(u32), B }\n',
         "content_without_tag": '#[typeshare]\n#[serde(content = "c")]\npub enum Host { A(u32), B }\n',
